@@ -200,7 +200,7 @@ class Models:
             v = c.argv(0)
             out = {(): T(("app", "to_vec", (v,)))}
             if v[0] == "r":
-                out[("$len",)] = c.eng.read(c.st, v[1], v[2] + ("$len",))
+                out[("$len",)] = c.eng.read_len(c.st, v[1], v[2])
                 out[("$copy_of",)] = ("r", v[1], v[2], False)
             c.set_dest(out)
             if v[0] == "r":
@@ -525,7 +525,7 @@ class Models:
             return [("acc", cur[1] if cur is not None and cur[0] == "t" else ("unknown", v[1], v[2]))]
 
         def add_len(c, st, v, extra):
-            n = c.eng.read(st, v[1], v[2] + ("$len",))
+            n = c.eng.read_len(st, v[1], v[2])
             if n[0] == "i" and extra is not None and extra[0] == "i":
                 c.eng.write(st, v[1], v[2] + ("$len",), I(lin.add(n[1], extra[1])), c.node)
             else:
@@ -536,7 +536,7 @@ class Models:
                 return sub[("$len",)]
             v = sub.get(())
             if v is not None and v[0] == "r":
-                return c.eng.read(st, v[1], v[2] + ("$len",))
+                return c.eng.read_len(st, v[1], v[2])
             return None
 
         self._set_layout = set_layout
@@ -549,7 +549,7 @@ class Models:
             segs = None
             total = None
             if v[0] == "r":
-                n = const_of(c.eng.read(c.st, v[1], v[2] + ("$len",)))
+                n = const_of(c.eng.read_len(c.st, v[1], v[2]))
                 if n is not None and n <= 64:
                     segs = []
                     total = lin.const(0)
@@ -602,7 +602,7 @@ class Models:
                     if x[0] in ("i", "b"):
                         # a byte pushed onto a byte vector: keep the layout
                         set_layout(c, c.st, v[1], v[2], cur_layout(c, c.st, v) + [("byte", x)])
-                n = c.eng.read(c.st, v[1], v[2] + ("$len",))
+                n = c.eng.read_len(c.st, v[1], v[2])
                 c.eng.write(c.st, v[1], v[2] + ("$len",), I(lin.add(n[1], lin.const(1))), c.node)
                 c.eng.write_subtree(c.st, v[1], v[2] + ("E",), c.args[1][0], c.node)
             c.set_dest({(): T(("unit", "()"))})
@@ -613,7 +613,7 @@ class Models:
             v = c.argv(0)
             if v[0] != "r":
                 return None
-            n = c.eng.read(c.st, v[1], v[2] + ("$len",))
+            n = c.eng.read_len(c.st, v[1], v[2])
             outs = []
             s_none = c.st.fork()
             if not s_none.ctx.infeasible_with([lin.le(n[1], lin.const(0))]):
@@ -661,7 +661,7 @@ class Models:
             v = c.argv(0)
             n = c.eng.as_lin(c.argv(1), c.args[1][1])
             if v[0] == "r":
-                old = c.eng.read(c.st, v[1], v[2] + ("$len",))[1]
+                old = c.eng.read_len(c.st, v[1], v[2])[1]
                 if c.st.ctx.entails(lin.le(n, old)):
                     new = n
                 elif c.st.ctx.entails(lin.le(old, n)):
@@ -680,7 +680,7 @@ class Models:
             v = c.argv(0)
             rk, start, end = c.range_arg(1)
             if v[0] == "r":
-                ln = c.eng.read(c.st, v[1], v[2] + ("$len",))[1]
+                ln = c.eng.read_len(c.st, v[1], v[2])[1]
                 s = start if start is not None else lin.const(0)
                 e = end if end is not None else ln
                 c.eng.require(c.st, c.fr, c.bb, "range", "drain(a..b): a <= b <= len", [lin.le(s, e), lin.le(e, ln)])
@@ -703,7 +703,7 @@ class Models:
             rk, start, end = c.range_arg(1)
             if v[0] != "r":
                 return None
-            ln = c.eng.read(c.st, v[1], v[2] + ("$len",))[1]
+            ln = c.eng.read_len(c.st, v[1], v[2])[1]
             if rk is None:
                 # single element
                 i = c.eng.as_lin(c.argv(1), c.args[1][1])
@@ -787,7 +787,7 @@ class Models:
             v = c.argv(0)
             out = {(): T(("app", "iter", c.site, (v,)))}
             if v[0] == "r":
-                out[("$len",)] = c.eng.read(c.st, v[1], v[2] + ("$len",))
+                out[("$len",)] = c.eng.read_len(c.st, v[1], v[2])
                 out[("$over",)] = ("r", v[1], v[2], v[3])
             c.set_dest(out)
             return [c.st]
@@ -875,6 +875,136 @@ class Models:
                 outs.append((vi, s2, d))
             return outs
 
+        @reg("core::slice::<impl [T]>::get")
+        def slice_get(c):
+            """slice.get(i) with an integer index: Some(&slice[i]) iff i < len; a small constant array is split by index"""
+            v, iv = c.argv(0), c.argv(1)
+            if v[0] != "r" or iv[0] != "i":
+                return None
+            ln = c.eng.read_len(c.st, v[1], v[2])
+            n = const_of(ln)
+            outs = []
+            k = const_of(iv)
+            known = n is not None and n <= 16 and c.eng.has_subtree(c.st, v[1], tuple(v[2]) + (("a", 0),)) or \
+                (n is not None and n <= 16 and c.st.store.get(v[1], {}).get(tuple(v[2]) + (("a", 0),)) is not None)
+            if known:
+                for j in ([k] if k is not None and k < n else ([] if k is not None else range(n))):
+                    s2 = c.st.fork()
+                    cons = [lin.le(iv[1], lin.const(j)), lin.le(lin.const(j), iv[1])]
+                    if s2.ctx.infeasible_with(cons):
+                        continue
+                    for cc in cons:
+                        s2.ctx.add(cc)
+                    c.set_dest({("$discr",): ICONST(1), (("v", 1), 0): ("r", v[1], tuple(v[2]) + (("a", j),), False)}, s2)
+                    outs.append(s2)
+            else:
+                s2 = c.st.fork()
+                if not s2.ctx.infeasible_with([lin.lt(iv[1], ln[1])]):
+                    s2.ctx.add(lin.lt(iv[1], ln[1]))
+                    c.set_dest({("$discr",): ICONST(1), (("v", 1), 0): ("r", v[1], tuple(v[2]) + ("E",), False)}, s2)
+                    outs.append(s2)
+            s3 = c.st
+            if not s3.ctx.infeasible_with([lin.le(ln[1], iv[1])]):
+                s3.ctx.add(lin.le(ln[1], iv[1]))
+                c.set_dest({("$discr",): ICONST(0)}, s3)
+                outs.append(s3)
+            return outs
+
+        @reg("std::option::Option::copied", "std::option::Option::cloned")
+        def opt_copied(c):
+            outs = []
+            for (vi, s2) in c.fork_discr(0, 2):
+                if vi == 0:
+                    c.set_dest({("$discr",): ICONST(0)}, s2)
+                else:
+                    pl = c.payload(s2, 0, ("v", 1), field0=True, typed=False)
+                    r = pl.get(())
+                    if r is not None and r[0] == "r":
+                        pl = c.eng.subtree(s2, r[1], r[2])
+                    out = {("$discr",): ICONST(1)}
+                    for kk, vv in pl.items():
+                        out[(("v", 1), 0) + kk] = vv
+                    c.set_dest(out, s2)
+                outs.append(s2)
+            return outs
+
+        @reg("std::iter::Iterator::copied", "std::iter::Iterator::cloned")
+        def iter_copied(c):
+            out = dict(c.args[0][0])
+            out[("$byvalue",)] = ICONST(1)
+            c.set_dest(out)
+            return [c.st]
+
+        @reg("std::iter::Iterator::find")
+        def iter_find(c):
+            """find over a small constant-length array: the predicate is tried on the elements in order; otherwise one
+            representative element (summarised iteration)"""
+            eng = c.eng
+            sub = c.args[0][0]
+            v = sub.get(())
+            if v is not None and v[0] == "r" and "E" not in v[2]:
+                sub = eng.subtree(c.st, v[1], v[2])
+            over = sub.get(("$over",))
+            byval = sub.get(("$byvalue",)) is not None
+            n = const_of(eng.read_len(c.st, over[1], over[2])) if over is not None and over[0] == "r" else None
+            res = []
+            if n is not None and n <= 16 and (eng.has_subtree(c.st, over[1], tuple(over[2]) + (("a", 0),)) or
+                                               c.st.store.get(over[1], {}).get(tuple(over[2]) + (("a", 0),)) is not None):
+                states = [c.st]
+                for j in range(n):
+                    nxt_states = []
+                    for st_ in states:
+                        eplace = (over[1], tuple(over[2]) + (("a", j),))
+                        if byval:
+                            # Item = T: the predicate gets a reference to a copy
+                            eng.symctr += 1
+                            tmp = ("L", c.fr.id, ("finditem", c.bb, eng.symctr))
+                            eng.write_subtree(st_, tmp, (), eng.subtree(st_, eplace[0], eplace[1]), None)
+                            arg = {(): ("r", tmp, (), False)}
+                            item = eng.subtree(st_, eplace[0], eplace[1])
+                        else:
+                            # Item = &T: the predicate gets &&T
+                            eng.symctr += 1
+                            tmp = ("L", c.fr.id, ("finditem", c.bb, eng.symctr))
+                            eng.write_subtree(st_, tmp, (), {(): ("r", eplace[0], eplace[1], False)}, None)
+                            arg = {(): ("r", tmp, (), False)}
+                            item = {(): ("r", eplace[0], eplace[1], False)}
+                        for (s2, rsub) in c.invoke(st_, 1, [arg]):
+                            s2.store.pop(tmp, None)
+                            for (truth, s3) in eng.fork_bool(s2, rsub.get(())):
+                                if truth:
+                                    out = {("$discr",): ICONST(1)}
+                                    for kk, vv in item.items():
+                                        out[(("v", 1), 0) + kk] = vv
+                                    c.set_dest(out, s3)
+                                    res.append(s3)
+                                else:
+                                    nxt_states.append(s3)
+                    states = nxt_states
+                for st_ in states:
+                    c.set_dest({("$discr",): ICONST(0)}, st_)
+                    res.append(st_)
+                return res
+            loop_id, exit_state, outs = eng.summarised_iteration(c.fr, c.bb, c.st, c.t.get("t"), c.args[1][0], c.args[1][1],
+                                                                 lambda s: [iter_elem_ref(c, s)], adapter="find")
+            c.set_dest({("$discr",): ICONST(0)}, exit_state)
+            res.append(exit_state)
+            for (s, rsub) in outs:
+                for (truth, s2) in eng.fork_bool(s, rsub.get(())):
+                    if truth:
+                        c.set_dest({("$discr",): ICONST(1), (("v", 1), 0): T(("found", c.site))}, s2)
+                        res.append(s2)
+                    else:
+                        eng.iteration_continues(loop_id, s2, exit_state)
+            return res
+
+        def iter_elem_ref(c, st):
+            e = iter_elem(c, st)
+            c.eng.symctr += 1
+            tmp = ("L", c.fr.id, ("finditem", c.bb, c.eng.symctr))
+            c.eng.write_subtree(st, tmp, (), e, None)
+            return {(): ("r", tmp, (), False)}
+
         @reg("std::iter::Iterator::for_each", "std::iter::Iterator::try_for_each", "std::iter::Iterator::any", "std::iter::Iterator::all")
         def iter_adapter(c):
             which = c.base.rsplit("::", 1)[-1]
@@ -934,7 +1064,7 @@ class Models:
             v = c.argv(0)
             ln = None
             if v[0] == "r":
-                ln = c.eng.read(c.st, v[1], v[2] + ("$len",))[1]
+                ln = c.eng.read_len(c.st, v[1], v[2])[1]
             outs = []
             s_none = c.st.fork()
             c.mark(s_none, 0)
@@ -1177,6 +1307,35 @@ class Models:
             else:
                 c.eng.symctr += 1
                 c.set_dest({(): ("b", ("opaque", ("streq", c.argv(0), c.argv(1), a, b, c.eng.symctr)))})
+            return [c.st]
+
+        @reg("std::cmp::impls::<impl std::cmp::PartialEq<&B> for &A>::eq", "std::cmp::impls::<impl std::cmp::PartialEq<&B> for &A>::ne")
+        def ref_eq(c):
+            """`&a == &b` delegates to `a == b`; decided here for string slices (constants compare by value)"""
+            prog = c.eng.prog
+            ti = c.args[0][1]
+            base = prog.peel_refs(ti) if ti is not None else None
+            if base is None or prog.types[base]["k"] != "str":
+                return None
+            inner = []
+            for i in (0, 1):
+                v = c.argv(i)
+                hops = 0
+                while v is not None and v[0] == "r" and not (v[1][0] == "K") and hops < 4:
+                    nv = c.st.store.get(v[1], {}).get(tuple(v[2]))
+                    if nv is None or nv[0] != "r":
+                        break
+                    v = nv
+                    hops += 1
+                inner.append(v)
+            strs = [v[1][1][1] if (v is not None and v[0] == "r" and v[1][0] == "K" and v[1][1][0] == "str") else None for v in inner]
+            neg = c.base.endswith("::ne")
+            if strs[0] is not None and strs[1] is not None:
+                c.set_dest({(): ICONST(1 if (strs[0] == strs[1]) != neg else 0)})
+            else:
+                c.eng.symctr += 1
+                b = ("opaque", ("streq", inner[0], inner[1], strs[0], strs[1], c.eng.symctr))
+                c.set_dest({(): ("b", ("not", b) if neg else b)})
             return [c.st]
 
         # ---------------- time
